@@ -378,8 +378,10 @@ pub fn read_props(r: &mut Rd<'_>, ctx: Ctx) -> Result<Vec<Prop>, Bad> {
     let mut sub = Rd::new(&r.b[r.i..r.i + len]);
     r.i += len;
     read_props_inner(&mut sub, ctx).map_err(|e| match e {
-        // anything wrong *inside* a property block is its own class: the block as a whole was
-        // delimited correctly, so the packet framing is intact
+        // anything wrong *inside* a property block is its own class (the block as a whole was
+        // delimited correctly, so the packet framing is intact) - except a variable byte integer that is
+        // non-canonical or too long: that is malformed wherever it stands
+        Bad::Malformed(MalClass::BadVarint, why) => Bad::Malformed(MalClass::BadVarint, why),
         Bad::Malformed(_, why) => Bad::Malformed(MalClass::Other, why),
         other => other,
     })
